@@ -367,6 +367,85 @@ def _inside_node(scope, node):
 
 # -- K7: en-passant writers agree ----------------------------------------------------------
 
+def importer_inspects_the_pushed_pawns_row(ctx, F):
+    """The importer must look for the capturing pawn where Game::push looks: beside the pawn that made the double step, i.e. on row
+    4 (rank 5) when White is to move and on row 3 (rank 4) when Black is.  The rows of every square the recording condition
+    constructs are evaluated for both sides (guards of the form `x == y` on the way are used as equations); besides the pawn's
+    row only the row of the en-passant target square itself (5 / 2) may appear."""
+    from .common import enclosing_conditions, dependence_nodes
+    fn = F.fn("chess::Game::new")
+    body = fn["hir"]["body"]
+    symt = hir.Sym(hir.Env(fn["hir"], F), F, through=True)
+    D = discr_map(F)
+    rec = [c for c, _ in hir.calls(body, "GameState::set_en_passant") if hir.sym_int(symt(c["args"][0])) != 8]
+    if len(rec) != 1:
+        return
+    call = rec[0]
+    nodes = [n for c in enclosing_conditions(call, fn["hir"]) for n in dependence_nodes(c, fn["hir"])]
+    rows = []
+    own = {id(n) for n, _ in hir.walk(body)}
+    # a helper that could not be expanded in place (it returns from inside a loop) is read with its own bindings; its parameters
+    # are then free variables named like the arguments (`current_player`)
+    helper_syms = []
+    for hp, hh in hir.HELPER_HIR.items():
+        ids = {id(n) for n, _ in hir.walk(hh["body"])}
+        if any(id(n) in ids for n in nodes):
+            helper_syms.append((ids, hir.Sym(hir.Env(hh, F), F, through=True)))
+    for n in nodes:
+        if n.get("k") in ("Call", "MethodCall") and str(hir.callee_of(n) or "").endswith(("Position::new", "Position::new_assert", "Position::new_unsafe")) \
+                and len(hir.call_args(n)) == 2:
+            sy = symt if id(n) in own else next((s_ for ids, s_ in helper_syms if id(n) in ids), symt)
+            rows.append((n, sy(hir.call_args(n)[0])))
+    # equations from the guards the recording runs under and from the match guards in the dependence closure (`*rank == expected_rank`)
+    eqs = {}
+    guard_eqs = []
+    for n in nodes:
+        if n.get("k") == "Match":
+            for a_ in n.get("arms") or ():
+                if a_.get("guard"):
+                    guard_eqs += [x for x, _ in hir.walk(a_["guard"]) if x.get("k") == "Binary" and x.get("op") == "=="]
+    for n in guard_eqs:
+        if n.get("k") == "Binary" and n.get("op") == "==":
+            l, r = symt(n["l"]), symt(n["r"])
+            for a_, b_ in ((l, r), (r, l)):
+                x = a_
+                while x[0] in ("un", "deref") and len(x) >= 2 and isinstance(x[-1], tuple):
+                    x = x[-1]
+                if x[0] == "var" and b_[0] != "var":
+                    eqs[x] = b_
+                    eqs[a_] = b_
+    players = {t for _, r in rows for t in hir.subterms(r) if t[:2] == ("var", "current_player") or (t[0] == "field" and t[-1] == "current_player")}
+    for _, r in rows:
+        for e_ in eqs.values():
+            players |= {t for t in hir.subterms(e_) if t[:2] == ("var", "current_player")}
+    def player_valued(t):
+        return t[0] == "match" and any(b[0] == "variant" and str(b[1]).startswith("chess::Player::") for _, _, b in t[2]) and \
+            all((b[0] == "variant" and str(b[1]).startswith("chess::Player::")) or b[0] in ("ret", "call", "panic") for _, _, b in t[2])
+    for _, r in rows:
+        players |= {t for t in hir.subterms(r) if player_valued(t)}
+    for e_ in eqs.values():
+        players |= {t for t in hir.subterms(e_) if player_valued(t)}
+    found = {}
+    for side, pawn_row, target_row in (("White", 4, 5), ("Black", 3, 2)):
+        a = dict(eqs)
+        for p_ in players | {("var", "current_player")}:
+            a[p_] = ("variant", "chess::Player::" + side)
+        got = set()
+        for n, r in rows:
+            from .common import chess_evalcalls
+            ev = chess_evalcalls(None, {})
+            v = hir.fold(hir.subst(r, eqs), a, D, None, ev)
+            v = hir.fold(v, a, D, None, ev)
+            if hir.sym_int(v) is not None:        # squares whose row is not decided by the side to move (the board scanner's) are not this rule's
+                got.add(hir.sym_int(v))
+        found[side] = sorted(got, key=str)
+        ok = pawn_row in got and got <= {pawn_row, target_row}
+        ctx.check("C04.K7", "importer-looks-beside-the-pushed-pawn:%s-to-move" % side, ok, fn=fn["path"], file=fn["file"], line=hir.line(call),
+                  what="the importer looks for the pawn that could capture en passant on a row other than the one the pushed pawn stands on: "
+                       "the file is then recorded (or dropped) differently from Game::push and a loaded position differs from the played one",
+                  expected="squares on row %d (and at most the target square's row %d)" % (pawn_row, target_row), found=found[side])
+
+
 def rule_k7(ctx, F):
     n_sites = 0
     for fn_path in ("chess::Game::push", "chess::Game::new"):
@@ -387,6 +466,7 @@ def rule_k7(ctx, F):
                       expected="set_en_passant(file) control-dependent on a board read next to the pushed pawn "
                                "compared with PieceType::Pawn", found=why)
     ctx.floor("C04.K7", "non-sentinel set_en_passant sites", n_sites, 2)
+    importer_inspects_the_pushed_pawns_row(ctx, F)
     # the importer decides once: no later reset of the file it recorded, exactly one state key folded in
     nw = F.fn("chess::Game::new")
     nsym = hir.Sym(hir.Env(nw["hir"], F), F)
